@@ -1,5 +1,8 @@
 import Mkdb.Proofs.PageCache
 import Mkdb.Proofs.Evict7
+import Mkdb.Proofs.FlushOrder2
+import Mkdb.Proofs.FlushOrder3
+import Mkdb.Proofs.FlushOrderLRU
 /-!
 # C16 — query results do not depend on the page-cache size
 
@@ -353,3 +356,172 @@ theorem C16_evictions_on_a_computed_database :
   evict_example
 
 end Mkdb.Store
+
+/-!
+## C16 with the flush as the code does it: a flush reorders the recency list
+
+`fileStore.flushPagesLocked` (storage/page.go) ranges over the cache's Go map - an order that is arbitrary
+and differs from run to run - and calls `update` for every dirty page; `update` ends in `setCache`, i.e.
+`LRUCache.set` of a key that is resident, which is `MoveToFront` (storage/lru.go).  So a flush is not only
+"write the dirty pages and mark them clean" (the `flush` of the theorems above, which keeps the recency
+order): after it every page that was dirty is at the front of the recency list, in the order of that map
+iteration, ahead of all pages that were clean.  Which page the NEXT miss evicts therefore depends on the
+iteration order (`C16_flush_order_changes_the_next_victim`).  `flushOrd s order` is that flush with the
+iteration order as a parameter (every `order` allowed; those that enumerate the dirty pages are the
+behaviours of the code), `OpF` / `runF` are the histories with it.  The theorems below say that nothing
+of this is visible in what is read: outputs and logical contents depend neither on the capacities nor on
+the orders.  `C16_policy_is_the_lru_model` (above) describes the recency order BETWEEN flushes only - a
+fetch is an `LRUCache.get` / `set`; the move at a flush is `C16_flush_moves_the_dirty_pages_to_the_front`.
+-/
+namespace Mkdb.PageCache
+variable {α : Type}
+
+/-- **C16.flush_order_is_invisible**: the flush of the code, whatever order its map iteration takes
+(`o1`, `o2`: any two lists of keys), keeps the invariant and the capacity, leaves the logical contents
+unchanged, writes the data file exactly as the order-keeping `flush` does, and leaves under every key the
+same entry as `flush` does - the same pages resident, with the same contents, all clean.  The recency
+lists after `flush`, after order `o1` and after order `o2` are permutations of each other: only the order
+differs.  Hypothesis: the cache invariant (distinct keys, within capacity, clean pages equal their disk
+image), which every history keeps. -/
+theorem C16_flush_order_is_invisible (s : St α) (h : Inv s) (o1 o2 : List Nat) :
+    Inv (flushOrd s o1) ∧ (flushOrd s o1).cap = s.cap ∧ (∀ k, view (flushOrd s o1) k = view s k) ∧
+    (flushOrd s o1).disk = (flush s).disk ∧
+    (∀ k, find? (flushOrd s o1).items k = find? (flush s).items k) ∧
+    (∀ e ∈ (flushOrd s o1).items, e.dirty = false) ∧
+    (flushOrd s o1).items.Perm (flush s).items ∧ (flushOrd s o1).items.Perm (flushOrd s o2).items :=
+  ⟨flushOrd_inv s h o1, rfl, flushOrd_view s h o1, rfl, flushOrd_find? s h.1 o1, flushOrd_all_clean s h.1 o1,
+    flushOrd_items_perm s h.1 o1, (flushOrd_items_perm s h.1 o1).trans (flushOrd_items_perm s h.1 o2).symm⟩
+
+/-- non-vacuity: the capacity-2 cache with the two dirty pages 1 and 2, on which the orders `[1, 2]` and
+`[2, 1]` give different recency lists (the page visited last in front; `flush` keeps the old order) -/
+example : Inv ExampleF.d0 ∧
+    ExampleF.ents (flushOrd ExampleF.d0 [1, 2]) = [(2, 21, false), (1, 11, false)] ∧
+    ExampleF.ents (flushOrd ExampleF.d0 [2, 1]) = [(1, 11, false), (2, 21, false)] ∧
+    ExampleF.ents (flush ExampleF.d0) = [(1, 11, false), (2, 21, false)] :=
+  ⟨ExampleF.d0_inv, ExampleF.orders_differ⟩
+
+/-- **C16.flush_moves_the_dirty_pages_to_the_front**: the recency list after the flush of the code is
+`F ++ C`: `C` the pages that were clean, in their old relative order; `F`, in front of them, the pages that
+were dirty - every one of them, once, now clean - in an order that depends on the iteration order.
+Hypothesis: the cache invariant. -/
+theorem C16_flush_moves_the_dirty_pages_to_the_front (s : St α) (h : Inv s) (order : List Nat) :
+    ∃ F, (flushOrd s order).items = F ++ s.items.filter (fun e => !e.dirty) ∧
+      F.Perm ((s.items.filter fun e => e.dirty).map clean) :=
+  flushOrd_shape s h.1 order
+
+/-- non-vacuity: the cache with the two dirty pages satisfies the invariant; the orders `[1, 2]`, `[2, 1]`
+give `F` = 2, 1 and `F` = 1, 2 (example above) -/
+example : Inv ExampleF.d0 := ExampleF.d0_inv
+
+/-- **C16.flush_without_dirty_pages_keeps_the_order**: when no resident page is dirty the loop of
+`flushPagesLocked` skips every page: the flush of the code is then the order-keeping `flush`, for every
+iteration order (in particular `order = []`).  Hypothesis: no resident page is dirty - otherwise the two
+differ in the order (example above). -/
+theorem C16_flush_without_dirty_pages_keeps_the_order (s : St α) (hclean : ∀ e ∈ s.items, e.dirty = false)
+    (order : List Nat) : flushOrd s order = flush s :=
+  flushOrd_of_clean s hclean order
+
+/-- non-vacuity: the cache `Example.s0` (page 1 resident and clean) -/
+example : ∀ e ∈ Example.s0.items, e.dirty = false := by decide
+
+/-- **C16.capacity_independent_with_reordering_flushes**: two caches of any two capacities, started on the
+same logical contents, run the same operations - `ops1` and `ops2` are the same list of reads, changes
+and flushes (`map OpF.toOp` forgets the iteration orders), but every flush of either run takes its own
+iteration order.  If neither run refuses, every read returns the same page content in both and both end
+with the same logical contents: neither the capacities nor the orders chosen at the flushes are visible.
+Excluded: runs in which a side refuses (`ErrCacheFull`; when that happens is
+`C16_refusal_with_reordering_flushes`). -/
+theorem C16_capacity_independent_with_reordering_flushes (s1 s2 : St α) (ops1 ops2 : List (OpF α))
+    (hops : ops1.map OpF.toOp = ops2.map OpF.toOp) (h1 : Inv s1) (h2 : Inv s2)
+    (hv : ∀ k, view s1 k = view s2 k) (s1' s2' : St α) (o1 o2 : List (Option α))
+    (r1 : runF s1 ops1 = some (s1', o1)) (r2 : runF s2 ops2 = some (s2', o2)) :
+    o1 = o2 ∧ ∀ k, view s1' k = view s2' k :=
+  capF_independent s1 s2 ops1 ops2 hops h1 h2 hv s1' s2' o1 o2 r1 r2
+
+/-- non-vacuity: flush, read 3, read 1, read 2 on the capacity-2 cache with two dirty pages, the flush
+taking the order `[1, 2]` in the one run and `[2, 1]` in the other, and the second run with capacity 3:
+all complete -/
+example : Inv ExampleF.d0 ∧ Inv { ExampleF.d0 with cap := 3 } ∧
+    ExampleF.wA.map OpF.toOp = ExampleF.wB.map OpF.toOp ∧ (runF ExampleF.d0 ExampleF.wA).isSome = true ∧
+    (runF { ExampleF.d0 with cap := 3 } ExampleF.wB).isSome = true :=
+  ⟨ExampleF.d0_inv, ⟨ExampleF.d0_inv.1, by decide, ExampleF.d0_inv.2.2⟩, rfl, by decide, by decide⟩
+
+/-- **C16.equals_cacheless_with_reordering_flushes**: a cache of any capacity whose flushes reorder the
+recency list in any way behaves like no cache at all (`refRun` on the operations with the orders
+forgotten), and keeps its invariant.  Excluded: a run that refuses. -/
+theorem C16_equals_cacheless_with_reordering_flushes (s : St α) (ops : List (OpF α)) (h : Inv s) (s' : St α)
+    (outs : List (Option α)) (hr : runF s ops = some (s', outs)) :
+    Inv s' ∧ outs = (refRun (view s) (ops.map OpF.toOp)).2 ∧
+      ∀ k, view s' k = (refRun (view s) (ops.map OpF.toOp)).1 k :=
+  runF_sim s ops h s' outs hr
+
+/-- non-vacuity: the history `ExampleF.wA` runs -/
+example : Inv ExampleF.d0 ∧ (runF ExampleF.d0 ExampleF.wA).isSome = true := ⟨ExampleF.d0_inv, by decide⟩
+
+/-- **C16.refusal_with_reordering_flushes**: in a history with the flushes of the code the only operation
+that can refuse is still a read or a change of a page that is not resident while the cache is full of
+dirty pages (`C16_refusal_only_when_full_of_dirty`); a flush never refuses, whatever its order.  Not said
+here: whether two runs with the same capacity but different flush orders refuse at the same operation
+(which clean pages are resident depends on the earlier orders through the evictions; the dirty pages,
+which decide a refusal, should not - not proved). -/
+theorem C16_refusal_with_reordering_flushes (s : St α) (op : OpF α) :
+    stepF s op = none ↔ ∃ k, (op = .fetch k ∨ ∃ f, op = .write k f) ∧
+      find? s.items k = none ∧ s.items.length = s.cap ∧ ∀ e ∈ s.items, e.dirty = true :=
+  stepF_none_iff s op
+
+/-- **C16.flush_makes_durable_with_reordering_flushes**: after the flush of the code, in whatever order,
+the data file holds the logical contents - those before the flush, which are those after it. -/
+theorem C16_flush_makes_durable_with_reordering_flushes (s : St α) (h : Inv s) (order : List Nat) :
+    ∀ k, (flushOrd s order).disk k = view s k ∧ (flushOrd s order).disk k = view (flushOrd s order) k :=
+  fun k => ⟨flushOrd_disk_view s h order k, (flushOrd_disk_view s h order k).trans (flushOrd_view s h order k).symm⟩
+
+/-- non-vacuity: after either order the file of the example cache holds 11 and 21 in pages 1 and 2 -/
+example : Inv ExampleF.d0 ∧ (flushOrd ExampleF.d0 [2, 1]).disk 1 = 11 ∧ (flushOrd ExampleF.d0 [1, 2]).disk 2 = 21 :=
+  ⟨ExampleF.d0_inv, by decide, by decide⟩
+
+/-- **C16.flush_order_changes_the_next_victim** (the model evaluated; why the order matters at all): on the
+capacity-2 cache holding the dirty pages 1 and 2, after the flush with iteration order `[1, 2]` the read
+of page 3 evicts page 1, after the flush with order `[2, 1]` it evicts page 2 (both return 30; the victim
+is `LRU.victim` of the projected list).  Continuing with reads of 1 and 2, page 1 is a miss in the one
+run and a hit in the other, and both runs return `30, 11, 21`. -/
+theorem C16_flush_order_changes_the_next_victim :
+    ((fetch (flushOrd ExampleF.d0 [1, 2]) 3).map fun r => (ExampleF.ents r.1, r.2)) =
+      some ([(3, 30, false), (2, 21, false)], 30) ∧
+    ((fetch (flushOrd ExampleF.d0 [2, 1]) 3).map fun r => (ExampleF.ents r.1, r.2)) =
+      some ([(3, 30, false), (1, 11, false)], 30) ∧
+    (LRU.victim (proj (flushOrd ExampleF.d0 [1, 2]).items)).map (·.key) = some 1 ∧
+    (LRU.victim (proj (flushOrd ExampleF.d0 [2, 1]).items)).map (·.key) = some 2 ∧
+    ((runF ExampleF.d0 ExampleF.wA).map (·.2)) = some [none, some 30, some 11, some 21] ∧
+    ((runF ExampleF.d0 ExampleF.wB).map (·.2)) = some [none, some 30, some 11, some 21] :=
+  ⟨ExampleF.victims_differ.1, ExampleF.victims_differ.2.1, ExampleF.victims_differ.2.2.1,
+    ExampleF.victims_differ.2.2.2, by decide, by decide⟩
+
+/-- **C16.flush_loop_is_the_lru_model**: the loop of the flush - the turns at the keys of `order` -
+projects to `LRU.touchAll` of the LRU model of C15, whose every turn is the identity or an
+`LRUCache.set` of a resident key (`C15_flush_reordering_is_a_run_of_sets`).  Said of the loop over
+`order`; `flushOrd` then completes an `order` that leaves dirty pages out (nothing to complete when
+`order` names every dirty page, as the iteration of the code does). -/
+theorem C16_flush_loop_is_the_lru_model (cap : Nat) (l : List (Ent α)) (order : List Nat) :
+    proj (order.foldl visit l) = (LRU.touchAll ⟨cap, proj l⟩ order).items :=
+  proj_foldl_visit cap l order
+
+/-- **C16.flush_reaches_every_arrangement_and_no_other**: the model of the flush has exactly the
+behaviours of the code's loop.  (1) For EVERY arrangement `F` of the pages that were dirty there is an
+iteration order - the keys of `F`, last first, which names every dirty page - after which the recency
+list is `F` followed by the clean pages: no order of the Go map iteration is left out.  (2) Every
+`order`, also one that leaves dirty pages out or names other keys, gives the state of an `order'` that
+names every dirty resident page, i.e. of an iteration of the code: letting `flushOrd` complete such
+orders adds no behaviour.  Hypothesis: resident keys are distinct (a clause of `Inv`). -/
+theorem C16_flush_reaches_every_arrangement_and_no_other (s : St α) (h : Inv s) :
+    (∀ F : List (Ent α), F.Perm ((s.items.filter fun e => e.dirty).map clean) →
+      (flushOrd s (F.map (·.key)).reverse).items = F ++ s.items.filter (fun e => !e.dirty) ∧
+      ∀ e ∈ s.items, e.dirty = true → e.key ∈ (F.map (·.key)).reverse) ∧
+    (∀ order, ∃ order', (∀ e ∈ s.items, e.dirty = true → e.key ∈ order') ∧ flushOrd s order = flushOrd s order') :=
+  ⟨fun F hF => flushOrd_reaches s h.1 F hF, fun order => flushOrd_complete_order s h.1 order⟩
+
+/-- non-vacuity: on the cache with the dirty pages 1 and 2 the arrangement "2 in front of 1" -/
+example : Inv ExampleF.d0 ∧ ([⟨2, 21, false⟩, ⟨1, 11, false⟩] : List (Ent Nat)).Perm
+    ((ExampleF.d0.items.filter fun e => e.dirty).map clean) :=
+  ⟨ExampleF.d0_inv, List.Perm.swap _ _ _⟩
+
+end Mkdb.PageCache
